@@ -222,6 +222,37 @@ def canary(chk: "Check", lines: list, validate, corrupt=corrupt_generic, n: int 
         raise tlc.MachineryError(f"binding canary: {what} accepted all {len(bad)} corrupted lines")
 
 
+def parallel_iter(func, items: list, arg=None, nproc: int | None = None, chunk: int | None = None):
+    """like parallel(), but yields each chunk's result as soon as it is there (in any order), so that the caller can
+    merge and drop it: a list of all results can be many times larger than what is kept of them"""
+    nproc = nproc or NPROC
+    if not items:
+        return
+    chunk = chunk or max(1, min(500, len(items) // (nproc * 4) + 1))
+    chunks = [items[i:i + chunk] for i in range(0, len(items), chunk)]
+    if nproc == 1 or len(chunks) == 1:
+        for c in chunks:
+            st, r = _run_chunk((func, c, arg))
+            if st == "err":
+                raise tlc.MachineryError("replay worker crashed:\n" + r)
+            yield r
+        return
+    ctx = mp.get_context("fork")
+    limit = int(os.environ.get("VERIF_WORKER_TIMEOUT", "5400"))
+    with ctx.Pool(min(nproc, len(chunks))) as pool:
+        it = pool.imap_unordered(_run_chunk, [(func, c, arg) for c in chunks])
+        for _ in chunks:
+            try:
+                st, r = it.next(timeout=limit)
+            except mp.TimeoutError:
+                pool.terminate()
+                raise tlc.MachineryError(f"replay workers did not finish {func.__name__} in time (a worker died or a call never returned)")
+            if st == "err":
+                pool.terminate()
+                raise tlc.MachineryError("replay worker crashed:\n" + r)
+            yield r
+
+
 def safe(fn, case, *args):
     """Run a per-case check; an exception escaping from the library under test is a violation of the
     case at hand (clause `stray-exception`), not a failure of the machinery."""
